@@ -118,6 +118,13 @@ def _mk():
             return v if isinstance(v, Unknown) else TV(T("float", (A._term(v),)), kind="opaque")
         if isinstance(v, Gamma):
             return it.lift(lambda x: b_float(it, [x], k, n), v)
+        from . import values as _V
+
+        if _V.FLOAT_KIND[0]:
+            try:
+                return sp.Float(A._sym(v), 30)  # number-kind mode: float() makes a float
+            except Exception:
+                pass
         return num(A._sym(v))
 
     def b_int(it, a, k, n):
